@@ -337,6 +337,41 @@ Example C15_const_mixed_example :
   xlayout_const (Struct [(0, ex_inner)]) (XMap [(0, XDConst (Struct [(0, Leaf (Sh 4 false))]) 9)]) = Errz 3.
 Proof. vm_compute. repeat split. Qed.
 
+(* ---------------------------------------------------------------- designs assigning through views
+   (`m.d.comb/sync += view[path].eq(x)`, any number of statements in program order; the same value is produced by
+   the compiled simulator and by the emitted RTLIL, which the correspondence run executes through RtlilSem).
+   All layouts, all statement lists with constant paths, all input values: the signal stays in range, every bit
+   outside the assigned fields keeps the value it had (its own driver / init), and the statement that comes last
+   makes its field read back the assigned value in the field's shape. *)
+Theorem C15_design_assign_only_fields l env asgs cur : wf_layout l = true -> 0 <= cur < 2 ^ layout_size l ->
+  (forall a, In a asgs -> sasg_ok l a) ->
+  0 <= asgs_apply l env cur asgs < 2 ^ layout_size l /\
+  forall i, 0 <= i ->
+    (forall a c t, In a asgs -> path_chain l (sa_path a) = Some (c, t) ->
+                   ~ (chain_off c <= i < chain_off c + layout_size t)) ->
+    Z.testbit (asgs_apply l env cur asgs) i = Z.testbit cur i.
+Proof. intros Hwf Hc Hok. exact (asgs_apply_outside l env Hwf asgs cur Hc Hok). Qed.
+Print Assumptions C15_design_assign_only_fields.
+
+Theorem C15_design_last_statement_wins l env asgs a cur c t : wf_layout l = true -> 0 <= cur < 2 ^ layout_size l ->
+  (forall a', In a' asgs -> sasg_ok l a') -> sa_ix a = None -> sa_path a <> [] ->
+  path_chain l (sa_path a) = Some (c, t) ->
+  let r := asgs_apply l env cur (asgs ++ [a]) in
+  view_path l r (sa_path a) = view_field t (mask (layout_size t) (nth (sa_in a) env 0)) /\
+  (forall s, t = Leaf s -> view_path l r (sa_path a) = Ok (Leaf s) (norm s (nth (sa_in a) env 0))).
+Proof. exact (asgs_apply_last l env asgs a cur c t). Qed.
+Print Assumptions C15_design_last_statement_wins.
+
+Example C15_design_example :
+  sasg_ok ex_layout (SAsg [2; 1; 1] 0%nat None) /\ sasg_ok ex_layout (SAsg [0] 1%nat None) /\
+  (* comb statements on f2[1].f1 and f0, then a clocked statement on f3.f1; inputs -1, 6, 5 *)
+  synth ex_layout 225389 [SAsg [2; 1; 1] 0%nat None; SAsg [0] 1%nat None] [SAsg [3; 1] 2%nat None] [0; 0; 0]
+        [SData [(0%nat, -1); (1%nat, 6); (2%nat, 5)]; SClk 1; SClk 0] = [200808; 225390; 192622; 192622].
+Proof.
+  split; [|split]; try (split; [reflexivity|split; [discriminate|eexists; eexists; vm_compute; reflexivity]]).
+  vm_compute. reflexivity.
+Qed.
+
 (* ================================================================ translated source (translator unit "data")
    coq/Gen/DataGen.v is regenerated from the current text of /repo/amaranth/lib/data.py and lib/enum.py on every
    run; each generated function equals the hand model used above (Proofs/GenEqData.v).  LS = layout_size is the
